@@ -118,7 +118,9 @@ def case(draw):
         pre = draw(st.sampled_from(['', '', 'APLPAY ', 'SQ *', 'APLPAY SQ *', 'APLPAY APLPAY ', 'SQ *SQ *', 'TST*APLPAY ']))
         sep = draw(st.sampled_from([' ', ' ', '  ', '   ']))
         probes.append({'desc': pre + sep.join(words) + sep + draw(st.sampled_from(UNIQ)),
-                       'amount': draw(st.one_of(st.sampled_from([x + d for x in (50, 100, 200, 500) for d in (-0.01, 0, 0.01)]), st.integers(100, 99999).map(lambda c: c / 100.0)))})
+                       'amount': draw(st.one_of(st.sampled_from([x + d for x in (50, 100, 200, 500) for d in (-0.01, 0, 0.01)]), st.integers(100, 99999).map(lambda c: c / 100.0),
+                                                 # refunds / credits: the sign is part of the amount the rules see
+                                                 st.sampled_from([-0.01, -5.0, -50.0, -99.99, -100.0, -500.01])))})
     # a rule that is sensitive to the exact spacing of a probe description (column-padded statements)
     spaced = [p for p in probes if '  ' in p['desc']]
     if spaced and b['rules_kind'] == 'rules' and draw(st.booleans()):
